@@ -848,6 +848,13 @@ fn dir_case(prop: &str, idx: u64, tmproot: &Path) -> CaseRec {
     std::fs::write(dir.join("docs/notes.txt"), "# no\n\n```scrut\n$ echo D9T0 >> marker; false\nnever\n```\n").unwrap();
     std::fs::write(dir.join("docs/sub/README"), "  $ false\n  never\n").unwrap();
     std::fs::create_dir_all(dir.join("docs/sub/empty.md")).unwrap();
+    // a directory that is only reachable through a symbolic link inside the tree: its documents are documents too
+    let linked = EDoc { compat_skip: None, cram: false, broken: false, total: None, tests: vec![(if rng.chance(1, 3) { Beh::BadOut } else { Beh::Pass }, None), (Beh::Pass, None)] };
+    want_fail |= linked.tests.iter().any(|(b, _)| matches!(b, Beh::BadOut));
+    std::fs::create_dir_all(dir.join("outside")).unwrap();
+    let (text, _) = render_doc(&linked, 8, &marker);
+    std::fs::write(dir.join("outside/f.md"), text).unwrap();
+    let _ = std::os::unix::fs::symlink(dir.join("outside"), dir.join("docs/sub/linked"));
     // an explicitly named document outside the tree, before or after the directory
     let extra = EDoc { compat_skip: None, cram: false, broken: false, total: None, tests: vec![(Beh::Pass, None)] };
     let (text, _) = render_doc(&extra, 7, &marker);
@@ -883,6 +890,7 @@ fn dir_case(prop: &str, idx: u64, tmproot: &Path) -> CaseRec {
         }
         want.push(d.tests.iter().enumerate().map(|(ti, (b, _))| format!("D{di}T{ti}:{}", if matches!(b, Beh::BadOut) { "malformed_output" } else { "success" })).collect());
     }
+    want.push(linked.tests.iter().enumerate().map(|(ti, (b, _))| format!("D8T{ti}:{}", if matches!(b, Beh::BadOut) { "malformed_output" } else { "success" })).collect());
     want.push(vec!["D7T0:success".to_string()]);
     let marks: Vec<String> = std::fs::read_to_string(&marker).unwrap_or_default().lines().map(|l| l.to_string()).collect();
     for w in &want {
